@@ -67,8 +67,11 @@ pub open spec fn same_except(d0: Defs, d1: Defs, except: Seq<DatumId>) -> bool {
             (#[trigger] d0[k]).id == d1[k].id && d0[k].name == d1[k].name
             && d0[k].details.type_info == d1[k].details.type_info
             && d0[k].details.allow_uninit == d1[k].details.allow_uninit
-    &&& forall|k: int| 0 <= k < d0.len() && !except.contains(DatumId(k as usize)) ==>
+    &&& forall|k: int| 0 <= k < d0.len() && !has_id(except, k) ==>
             (#[trigger] d0[k]).details.offset == d1[k].details.offset
+}
+pub open spec fn has_id(s: Seq<DatumId>, k: int) -> bool {
+    exists|i: int| 0 <= i < s.len() && (#[trigger] s[i]).0 == k
 }
 
 pub const B: usize = 0x4000_0000;   // ends of pre-existing data
@@ -96,9 +99,31 @@ pub open spec fn members_are(out: Seq<DatumId>, data: Seq<DatumId>, add: Seq<Dat
     &&& forall|id: DatumId| out.contains(id) <==> data.contains(id) || add.contains(id)
 }
 
-/// `r` is `s` with the members of `rm` filtered out, order kept
-pub open spec fn filtered(s: Seq<DatumId>, rm: Seq<DatumId>) -> Seq<DatumId> {
-    s.filter(|d: DatumId| !rm.contains(d))
+/// `s` with the members of `rm` filtered out, order kept
+pub open spec fn filtered(s: Seq<DatumId>, rm: Seq<DatumId>) -> Seq<DatumId>
+    decreases s.len(),
+{
+    if s.len() == 0 {
+        s
+    } else {
+        let p = filtered(s.drop_last(), rm);
+        if rm.contains(s.last()) { p } else { p.push(s.last()) }
+    }
+}
+
+// std iterator glue (assumed): see rule R10
+#[verifier::external_type_specification]
+#[verifier::external_body]
+#[verifier::reject_recursive_types(I)]
+pub struct ExCloned<I>(core::iter::Cloned<I>);
+
+pub uninterp spec fn iter_ids<I>(i: I) -> Seq<DatumId>;
+
+#[verifier::external_body]
+pub fn vx_iter_cloned<'a>(v: &'a Vec<DatumId>) -> (r: core::iter::Cloned<core::slice::Iter<'a, DatumId>>)
+    ensures iter_ids(r) == v@,
+{
+    v.iter().cloned()
 }
 
 // ---------------------------------------------------------------------------------------------
@@ -120,6 +145,198 @@ pub proof fn lemma_al(c: int, a: int)
         vstd::arithmetic::mul::lemma_mul_is_commutative(a, k);
         assert(x == k * a + (a - 1));
         vstd::arithmetic::div_mod::lemma_fundamental_div_mod_converse(x, a, k, a - 1);
+    }
+}
+
+pub proof fn lemma_filtered_members(s: Seq<DatumId>, rm: Seq<DatumId>)
+    ensures
+        forall|x: DatumId| #[trigger] filtered(s, rm).contains(x) <==> (s.contains(x) && !rm.contains(x)),
+        filtered(s, rm).len() <= s.len(),
+    decreases s.len(),
+{
+    if s.len() > 0 {
+        let t = s.drop_last();
+        lemma_filtered_members(t, rm);
+        let p = filtered(t, rm);
+        assert forall|x: DatumId| #[trigger] filtered(s, rm).contains(x) <==> (s.contains(x) && !rm.contains(x)) by {
+            if s.contains(x) {
+                let i = choose|i: int| 0 <= i < s.len() && s[i] == x;
+                if i < s.len() - 1 { assert(t[i] == x); }
+            }
+            if t.contains(x) {
+                let i = choose|i: int| 0 <= i < t.len() && t[i] == x;
+                assert(s[i] == x);
+            }
+            if !rm.contains(s.last()) {
+                let f = p.push(s.last());
+                if p.contains(x) {
+                    let i = choose|i: int| 0 <= i < p.len() && p[i] == x;
+                    assert(f[i] == x);
+                }
+                assert(f[f.len() - 1] == s.last());
+                assert(s[s.len() - 1] == s.last());
+            }
+        }
+    }
+}
+
+pub proof fn lemma_filtered_wf(s: Seq<DatumId>, rm: Seq<DatumId>, defs: Defs, b: int)
+    requires wf(s, defs), bounded(s, defs, b),
+    ensures wf(filtered(s, rm), defs), bounded(filtered(s, rm), defs, b),
+    decreases s.len(),
+{
+    if s.len() > 0 {
+        let t = s.drop_last();
+        let l = s.last();
+        assert(forall|i: int| 0 <= i < t.len() ==> t[i] == s[i]);
+        lemma_filtered_wf(t, rm, defs, b);
+        lemma_filtered_members(t, rm);
+        let p = filtered(t, rm);
+        if !rm.contains(l) {
+            let f = p.push(l);
+            assert forall|i: int| 0 <= i < p.len() implies p[i] != l && dend(defs, #[trigger] p[i]) <= off(defs, l) by {
+                assert(p.contains(p[i]));
+                assert(t.contains(p[i]));
+                let k = choose|k: int| 0 <= k < t.len() && t[k] == p[i];
+                assert(s[k] == p[i]);
+                assert(s[s.len() - 1] == l);
+            }
+            assert(s[s.len() - 1] == l);
+            assert forall|i: int, j: int| #![trigger f[i], f[j]] 0 <= i < j < f.len() implies f[i] != f[j] && dend(defs, f[i]) <= off(defs, f[j]) by {
+                if j < p.len() { assert(f[i] == p[i] && f[j] == p[j]); } else { assert(f[i] == p[i]); }
+            }
+            assert forall|i: int| 0 <= i < f.len() implies (#[trigger] f[i]).0 < defs.len() && alg(defs, f[i]) > 0 && off(defs, f[i]) % alg(defs, f[i]) == 0 && dend(defs, f[i]) <= b by {
+                if i < p.len() { assert(f[i] == p[i]); }
+            }
+        }
+    }
+}
+
+/// facts needed before pushing `add[pos]` onto `filtered(data0, rm) + add.take(pos)`
+pub proof fn lemma_step_pre(data0: Seq<DatumId>, rm: Seq<DatumId>, add: Seq<DatumId>, pos: int, data: Seq<DatumId>, defs0: Defs, defs: Defs)
+    requires
+        add_ok(add, data0, defs0),
+        0 <= pos < add.len(),
+        data == filtered(data0, rm) + add.take(pos),
+        same_except(defs0, defs, add.take(pos)),
+    ensures
+        add[pos].0 < defs.len(),
+        !data.contains(add[pos]),
+        alg(defs, add[pos]) > 0,
+        sz(defs, add[pos]) + alg(defs, add[pos]) <= S,
+{
+    lemma_filtered_members(data0, rm);
+    let f = filtered(data0, rm);
+    let id = add[pos];
+    if data.contains(id) {
+        let i = choose|i: int| 0 <= i < data.len() && data[i] == id;
+        if i < f.len() {
+            assert(f[i] == id);
+            assert(f.contains(id));
+            assert(data0.contains(id));
+            let j = choose|j: int| 0 <= j < data0.len() && data0[j] == id;
+            assert(add[pos] != data0[j]);
+        } else {
+            assert(add.take(pos)[i - f.len()] == id);
+            assert(add[i - f.len()] == id);
+        }
+    }
+    assert(defs0[id.0 as int].details.type_info == defs[id.0 as int].details.type_info);
+}
+
+/// composing the frame after one push
+pub proof fn lemma_step_post(f: Seq<DatumId>, add: Seq<DatumId>, pos: int, data_b: Seq<DatumId>, data_a: Seq<DatumId>, defs0: Defs, defs_b: Defs, defs_a: Defs, newoff: int)
+    requires
+        0 <= pos < add.len(),
+        add.len() <= N,
+        valid_ids(add, defs0),
+        same_except(defs0, defs_b, add.take(pos)),
+        same_except(defs_b, defs_a, seq![add[pos]]),
+        data_b == f + add.take(pos),
+        data_a == data_b.push(add[pos]),
+        !data_b.contains(add[pos]),
+        bounded(data_b, defs_b, B + pos * S),
+        valid_ids(data_b, defs_b),
+        off(defs_a, add[pos]) == newoff,
+        newoff + sz(defs_b, add[pos]) <= B + pos * S + S,
+    ensures
+        same_except(defs0, defs_a, add.take(pos + 1)),
+        data_a == f + add.take(pos + 1),
+        bounded(data_a, defs_a, B + (pos + 1) * S),
+{
+    let id = add[pos];
+    let t0 = add.take(pos);
+    let t1 = add.take(pos + 1);
+    assert(t1 == t0.push(id));
+    assert(data_a == f + t1);
+    assert forall|k: int| 0 <= k < defs0.len() && !has_id(t1, k) implies (#[trigger] defs0[k]).details.offset == defs_a[k].details.offset by {
+        if has_id(t0, k) {
+            let i = choose|i: int| 0 <= i < t0.len() && (#[trigger] t0[i]).0 == k;
+            assert(t1[i].0 == k);
+        }
+        if has_id(seq![id], k) {
+            assert(id.0 == k);
+            assert(t1[pos].0 == k);
+        }
+        assert(defs0[k].details.offset == defs_b[k].details.offset);
+        assert(defs_b[k].details.offset == defs_a[k].details.offset);
+    }
+    assert forall|k: int| 0 <= k < defs0.len() implies
+            (#[trigger] defs0[k]).id == defs_a[k].id && defs0[k].name == defs_a[k].name
+            && defs0[k].details.type_info == defs_a[k].details.type_info
+            && defs0[k].details.allow_uninit == defs_a[k].details.allow_uninit by {
+        assert(defs0[k].id == defs_b[k].id);
+        assert(defs_b[k].id == defs_a[k].id);
+    }
+    assert((pos + 1) * S == pos * S + S) by (nonlinear_arith);
+    assert forall|i: int| 0 <= i < data_a.len() implies dend(defs_a, #[trigger] data_a[i]) <= B + (pos + 1) * S by {
+        if i < data_b.len() {
+            let d = data_b[i];
+            assert(data_a[i] == d);
+            assert(d != id) by { if d == id { assert(data_b.contains(id)); } }
+            assert(!has_id(seq![id], d.0 as int));
+            assert(defs_b[d.0 as int].details.offset == defs_a[d.0 as int].details.offset);
+            assert(dend(defs_b, data_b[i]) <= B + pos * S);
+        } else {
+            assert(data_a[i] == id);
+        }
+    }
+}
+
+pub proof fn lemma_finish(data0: Seq<DatumId>, rm: Seq<DatumId>, add: Seq<DatumId>, out: Seq<DatumId>, defs1: Defs)
+    requires
+        add.len() <= N,
+        out == filtered(data0, rm) + add,
+        bounded(out, defs1, B + add.len() * S),
+    ensures
+        members_are(out, filtered(data0, rm), add),
+        bounded(out, defs1, B + N * S),
+{
+    let f = filtered(data0, rm);
+    assert(add.len() * S <= N * S) by (nonlinear_arith) requires add.len() <= N;
+    assert forall|id: DatumId| out.contains(id) <==> f.contains(id) || add.contains(id) by {
+        if out.contains(id) {
+            let i = choose|i: int| 0 <= i < out.len() && out[i] == id;
+            if i < f.len() { assert(f[i] == id); } else { assert(add[i - f.len()] == id); }
+        }
+        if f.contains(id) {
+            let i = choose|i: int| 0 <= i < f.len() && f[i] == id;
+            assert(out[i] == id);
+        }
+        if add.contains(id) {
+            let i = choose|i: int| 0 <= i < add.len() && add[i] == id;
+            assert(out[f.len() + i] == id);
+        }
+    }
+}
+
+pub proof fn lemma_end_le(data: Seq<DatumId>, defs: Defs, b: int)
+    requires bounded(data, defs, b), b >= 0,
+    ensures 0 <= end_of(data, defs) <= b,
+{
+    if data.len() > 0 {
+        let x = data[data.len() - 1];
+        assert(dend(defs, x) <= b);
     }
 }
 
@@ -227,6 +444,11 @@ pub trait NativeDataUpdater {
         r == end_of(self.seq(), datum_definitions.data@)
 //@end
 
+//@fn truc/src/record/definition/builder/native/variant/mod.rs :: trait NativeDataUpdater :: fn remove_data
+//@ ensures
+        final(self).seq() == filtered(old(self).seq(), iter_ids(datum_ids))
+//@end
+
 //@fn truc/src/record/definition/builder/native/variant/mod.rs :: trait NativeDataUpdater :: fn push_datum
 //@ ret r
 //@ requires
@@ -266,6 +488,12 @@ impl NativeDataUpdater for Vec<DatumId> {
         }
 //@end
 
+// L4: contract assumed here (retain / any / IntoIterator are outside Verus' reach); the same
+// contract is checked on this function by Kani (bounded) -- see kani/truc_layout.rs
+//@fn truc/src/record/definition/builder/native/variant/mod.rs :: impl NativeDataUpdater for Vec<DatumId> :: fn remove_data
+//@ attr #[verifier::external_body]
+//@end
+
 //@fn truc/src/record/definition/builder/native/variant/mod.rs :: impl NativeDataUpdater for Vec<DatumId> :: fn push_datum
 //@ hint fn.start
         let ghost data0 = self@;
@@ -280,6 +508,7 @@ impl NativeDataUpdater for Vec<DatumId> {
             assert(forall|k: int| 0 <= k < defs1.len() && k != datum_id.0 ==> defs1[k] == defs0[k]);
             assert(forall|i: int| 0 <= i < data0.len() ==> data0[i] != datum_id);
             assert(seq![datum_id][0] == datum_id);
+            assert(forall|k: int| 0 <= k < defs1.len() && k != datum_id.0 ==> !has_id(seq![datum_id], k));
             assert(forall|i: int| 0 <= i < data0.len() ==> off(defs1, #[trigger] data1[i]) == off(defs0, data0[i]));
             if data0.len() > 0 {
                 assert(forall|i: int| 0 <= i < data0.len() - 1 ==> dend(defs0, data0[i]) <= off(defs0, data0[data0.len() - 1]));
@@ -287,6 +516,160 @@ impl NativeDataUpdater for Vec<DatumId> {
         }
 //@end
 }
+
+// ---------------------------------------------------------------------------------------------
+// L5 append_data / append_data_reverse
+
+pub open spec fn strategy_pre(data: Seq<DatumId>, add: Seq<DatumId>, rm: Seq<DatumId>, defs: Defs) -> bool {
+    &&& wf(data, defs)
+    &&& bounded(data, defs, B as int)
+    &&& add_ok(add, data, defs)
+}
+
+pub open spec fn strategy_post(r: Seq<DatumId>, data: Seq<DatumId>, add: Seq<DatumId>, rm: Seq<DatumId>, defs0: Defs, defs1: Defs) -> bool {
+    &&& wf(r, defs1)
+    &&& members_are(r, filtered(data, rm), add)
+    &&& same_except(defs0, defs1, add)
+    &&& bounded(r, defs1, B + N * S)
+}
+
+//@fn truc/src/record/definition/builder/native/variant/dummy.rs :: fn append_data
+//@ ret r
+//@ requires
+        strategy_pre(data@, data_to_add@, data_to_remove@, old(datum_definitions).data@)
+//@ ensures
+        strategy_post(r@, data@, data_to_add@, data_to_remove@, old(datum_definitions).data@, final(datum_definitions).data@)
+//@ hint fn.start
+    let ghost data0 = data@;
+    let ghost defs0 = datum_definitions.data@;
+//@ hint before for#1
+    let ghost f = filtered(data0, data_to_remove@);
+    proof {
+        lemma_filtered_wf(data0, data_to_remove@, defs0, B as int);
+        assert(data@ == f + data_to_add@.take(0));
+    }
+//@ loop 1 iter=it
+        invariant
+            add_ok(data_to_add@, data0, defs0),
+            f == filtered(data0, data_to_remove@),
+            wf(data@, datum_definitions.data@),
+            data@ == f + data_to_add@.take(it.index@),
+            same_except(defs0, datum_definitions.data@, data_to_add@.take(it.index@)),
+            bounded(data@, datum_definitions.data@, B + it.index@ * S),
+//@ hint loop1.start
+        let ghost pos = it.index@;
+        let ghost defs_b = datum_definitions.data@;
+        let ghost data_b = data@;
+        proof {
+            assert(datum_id == data_to_add@[pos]);
+            lemma_step_pre(data0, data_to_remove@, data_to_add@, pos, data@, defs0, defs_b);
+            assert(pos * S <= N * S) by (nonlinear_arith) requires 0 <= pos <= N;
+            lemma_end_le(data_b, defs_b, B + pos * S);
+        }
+//@ hint loop1.end
+        proof {
+            let defs_a = datum_definitions.data@;
+            let e = end_of(data_b, defs_b);
+            let a = alg(defs_b, datum_id);
+            lemma_al(e, a);
+            lemma_step_post(f, data_to_add@, pos, data_b, data@, defs0, defs_b, defs_a, off(defs_a, datum_id));
+        }
+//@ hint fn.end
+    proof {
+        assert(data_to_add@.take(data_to_add@.len() as int) == data_to_add@);
+        lemma_finish(data0, data_to_remove@, data_to_add@, data@, datum_definitions.data@);
+    }
+//@end
+
+pub proof fn lemma_add_ok_reverse(add: Seq<DatumId>, data: Seq<DatumId>, defs: Defs)
+    requires add_ok(add, data, defs),
+    ensures add_ok(add.reverse(), data, defs),
+        forall|k: int| has_id(add.reverse(), k) <==> has_id(add, k),
+        forall|id: DatumId| add.reverse().contains(id) <==> add.contains(id),
+{
+    let r = add.reverse();
+    let n = add.len() as int;
+    assert(forall|i: int| 0 <= i < n ==> r[i] == add[n - 1 - i]);
+    assert forall|k: int| has_id(r, k) <==> has_id(add, k) by {
+        if has_id(r, k) { let i = choose|i: int| 0 <= i < r.len() && (#[trigger] r[i]).0 == k; assert(add[n - 1 - i].0 == k); }
+        if has_id(add, k) { let i = choose|i: int| 0 <= i < add.len() && (#[trigger] add[i]).0 == k; assert(r[n - 1 - i].0 == k); }
+    }
+    assert forall|id: DatumId| r.contains(id) <==> add.contains(id) by {
+        if r.contains(id) { let i = choose|i: int| 0 <= i < r.len() && r[i] == id; assert(add[n - 1 - i] == id); }
+        if add.contains(id) { let i = choose|i: int| 0 <= i < add.len() && add[i] == id; assert(r[n - 1 - i] == id); }
+    }
+    assert forall|i: int, j: int| #![trigger r[i], r[j]] 0 <= i < j < r.len() implies r[i] != r[j] by {
+        assert(add[n - 1 - j] != add[n - 1 - i]);
+    }
+}
+
+pub proof fn lemma_same_except_reverse(d0: Defs, d1: Defs, add: Seq<DatumId>)
+    requires same_except(d0, d1, add.reverse()), forall|k: int| has_id(add.reverse(), k) <==> has_id(add, k),
+    ensures same_except(d0, d1, add),
+{
+}
+
+pub proof fn lemma_members_reverse(out: Seq<DatumId>, f: Seq<DatumId>, add: Seq<DatumId>)
+    requires members_are(out, f, add.reverse()), forall|id: DatumId| add.reverse().contains(id) <==> add.contains(id),
+    ensures members_are(out, f, add),
+{
+}
+
+//@fn truc/src/record/definition/builder/native/variant/dummy.rs :: fn append_data_reverse
+//@ ret r
+//@ requires
+        strategy_pre(data@, data_to_add@, data_to_remove@, old(datum_definitions).data@)
+//@ ensures
+        strategy_post(r@, data@, data_to_add@, data_to_remove@, old(datum_definitions).data@, final(datum_definitions).data@)
+//@ hint fn.start
+    let ghost data0 = data@;
+    let ghost defs0 = datum_definitions.data@;
+    let ghost radd = data_to_add@.reverse();
+//@ hint before for#1
+    let ghost f = filtered(data0, data_to_remove@);
+    proof {
+        lemma_filtered_wf(data0, data_to_remove@, defs0, B as int);
+        lemma_add_ok_reverse(data_to_add@, data0, defs0);
+        assert(data@ == f + radd.take(0));
+    }
+//@ loop 1 iter=it
+        invariant
+            add_ok(radd, data0, defs0),
+            radd == data_to_add@.reverse(),
+            it.seq().len() == radd.len(),
+            forall|i: int| 0 <= i < radd.len() ==> *it.seq()[i] == radd[i],
+            f == filtered(data0, data_to_remove@),
+            wf(data@, datum_definitions.data@),
+            data@ == f + radd.take(it.index@),
+            same_except(defs0, datum_definitions.data@, radd.take(it.index@)),
+            bounded(data@, datum_definitions.data@, B + it.index@ * S),
+//@ hint loop1.start
+        let ghost pos = it.index@;
+        let ghost defs_b = datum_definitions.data@;
+        let ghost data_b = data@;
+        proof {
+            assert(datum_id == radd[pos]);
+            lemma_step_pre(data0, data_to_remove@, radd, pos, data@, defs0, defs_b);
+            assert(pos * S <= N * S) by (nonlinear_arith) requires 0 <= pos <= N;
+            lemma_end_le(data_b, defs_b, B + pos * S);
+        }
+//@ hint loop1.end
+        proof {
+            let defs_a = datum_definitions.data@;
+            let e = end_of(data_b, defs_b);
+            let a = alg(defs_b, datum_id);
+            lemma_al(e, a);
+            lemma_step_post(f, radd, pos, data_b, data@, defs0, defs_b, defs_a, off(defs_a, datum_id));
+        }
+//@ hint fn.end
+    proof {
+        assert(radd.take(radd.len() as int) == radd);
+        lemma_finish(data0, data_to_remove@, radd, data@, datum_definitions.data@);
+        lemma_add_ok_reverse(data_to_add@, data0, defs0);
+        lemma_same_except_reverse(defs0, datum_definitions.data@, data_to_add@);
+        lemma_members_reverse(data@, f, data_to_add@);
+    }
+//@end
 
 } // verus!
 fn main() {}
